@@ -518,5 +518,20 @@ pub fn rand_program(rng: &mut Rng, cfg: &GenCfg) -> Program {
     if rng.chance(1, 4) {
         roots.push(rand_type(rng, cfg, &defs, 0, 0, None));
     }
+    // instantiations whose arguments overlap across positions: F<a,b>, F<b,c>, F<c,a>
+    if rng.chance(1, 3) {
+        let multi: Vec<usize> = (0..defs.len()).filter(|d| defs[*d].params.len() >= 2).collect();
+        if !multi.is_empty() {
+            let d = *rng.pick(&multi);
+            let mut pool: Vec<Src> = ARG_PRIMS.iter().map(|p| Src::Prim(p)).collect();
+            rng.shuffle(&mut pool);
+            let n = defs[d].params.len();
+            for k in 0..3 {
+                let args: Vec<Src> = (0..n).map(|i| pool[(k + i) % 3].clone()).collect();
+                roots.push(Src::App(d, args));
+            }
+            rng.shuffle(&mut roots);
+        }
+    }
     Program { defs, roots }
 }
